@@ -52,6 +52,7 @@ class State:
         self.region = None
         self.escaped = []
         self.entries = 0
+        self.fault_thread = None    # the thread the fault was raised in (handlers of other threads are not its handlers)
         self.templates = []         # templates logged with *.exception(...) after the fault fired (what the handlers say)
         self.none_returns = 0       # trace_call invocations that returned None (= "stop tracing this frame")
         self.record = False         # counting run: remember the region of every internal call
@@ -174,6 +175,7 @@ def _make_wrapper(fn, label, is_entry):
             fire = (st.k == n and not st.fired)
             if fire:
                 st.fired = True
+                st.fault_thread = threading.get_ident()
         if st.record and st.k is None:
             fr = sys._getframe(1)
             st.regions.append((n, _region(fr).split(':')[0]))
@@ -294,7 +296,7 @@ def _hook_logging():
 
     def make(orig):
         def exception(msg, *a, **k):
-            if STATE.fired and len(STATE.templates) < 8:
+            if STATE.fired and STATE.fault_thread == threading.get_ident() and len(STATE.templates) < 8:
                 STATE.templates.append(str(msg))
             return orig(msg, *a, **k)
         return exception
